@@ -150,7 +150,8 @@ Catalog(k) ==
   \cup {P(k, "dependency", v, 0) : v \in DepKinds(k)}
   \cup {P(k, "repo", op, c) : op \in RepoOps(k), c \in RepoArgs}
 
-Focus == UNION {Catalog(k) : k \in Kinds}
+FocusOf(kinds) == UNION {Catalog(k) : k \in kinds}
+Focus == FocusOf(Kinds)
 
 PlainOf(k) == CASE k = "namespace" -> P(k, "none", "same", 0)
                 [] k = "include" -> P(k, "none", "inc2", 0)
@@ -169,25 +170,34 @@ WithFocus(f, n) ==
 MainOnly(f) == f.k = "include" /\ f.v = "inc2"
 IncOnly(f) == f.k = "include" /\ f.v = "mutual"
 
-(* Sessions(maxprod): every focus production (every defect kind, every      *)
-(* valid variant, every repository rejection) at every position of a main   *)
-(* text of <= maxprod productions, and inside an included file.  Sessions   *)
-(* with a repository rejection are kept short (<= 2 productions).           *)
-SessionsA(maxprod) ==
+(* Sessions(maxprod, kinds): every focus production of the given kinds      *)
+(* (every defect kind, every valid variant, every repository rejection)     *)
+(*  A  at every position of a main text of <= maxprod productions,          *)
+(*  B  inside an included file (alone, before/after another production;     *)
+(*     the include alone, before/after another production of the main text) *)
+(*  C  in the main text after an include that returned normally.            *)
+(* Sessions with a repository rejection are kept short (<= 2 productions).  *)
+SessionsA(maxprod, kinds) ==
   UNION {UNION {{[main |-> m,
                   inc |-> IF MainOnly(f) THEN <<PlainOf("class")>> ELSE <<>>]
                  : m \in WithFocus(f, n)}
-                : n \in 1..(IF f.d = "repo" THEN 2 ELSE maxprod)}
-         : f \in {x \in Focus : ~IncOnly(x)}}
+                : n \in 1..(IF f.d = "repo" THEN (IF maxprod < 2 THEN maxprod
+                                                  ELSE 2) ELSE maxprod)}
+         : f \in {x \in FocusOf(kinds) : ~IncOnly(x)}}
 
 MainsB == {<<Inc2>>} \cup {<<c, Inc2>> : c \in Ctx} \cup {<<Inc2, c>> : c \in Ctx}
 IncsB(f) == {<<f>>, <<PlainOf("class"), f>>, <<f, PlainOf("class")>>}
-SessionsB ==
+SessionsB(kinds) ==
   UNION {IF f.d = "repo" THEN {[main |-> <<Inc2>>, inc |-> <<f>>]}
          ELSE {[main |-> m, inc |-> i] : m \in MainsB, i \in IncsB(f)}
-         : f \in {x \in Focus : ~MainOnly(x)}}
+         : f \in {x \in FocusOf(kinds) : ~MainOnly(x)}}
 
-Sessions(maxprod) == SessionsA(maxprod) \cup SessionsB
+SessionsC(kinds) ==
+  {[main |-> <<Inc2, f>>, inc |-> <<PlainOf("class")>>]
+   : f \in {x \in FocusOf(kinds) : ~IncOnly(x) /\ ~MainOnly(x)}}
+
+Sessions(maxprod, kinds) ==
+  SessionsA(maxprod, kinds) \cup SessionsB(kinds) \cup SessionsC(kinds)
 
 AllProds(ses) == Rng(ses.main) \cup Rng(ses.inc)
 
